@@ -38,10 +38,11 @@ def main():
                 print("  cannot apply to /repo"); sh("git -C /repo reset -q --hard HEAD"); continue
             results = {}
             try:
-                for cid in [sid] + EXTRA.get(sid, []):
+                extras = [] if os.environ.get("SEEDMATRIX_NO_EXTRA") else EXTRA.get(sid, [])
+                for cid in [sid] + extras:
                     rc, sigs, last = run_check(cid, "quick")
                     tier = "quick"
-                    if rc == 0 and cid == sid:
+                    if rc == 0 and cid == sid and not os.environ.get("SEEDMATRIX_NO_THOROUGH"):
                         rc, sigs, last = run_check(cid, "thorough")
                         tier = "thorough"
                     results[cid] = {"tier": tier, "exit": rc, "signatures": sigs[:6], "summary": last}
